@@ -173,9 +173,19 @@ func (r *c14) Exec(op []string) string {
 		if gfi == nil {
 			gfi = &mdiff.FileInfo{}
 		}
-		var ubuf bytes.Buffer
+		var ubuf, ubuf2 bytes.Buffer
 		d.Format(&ubuf, mdiff.Unified, gfi)
-		gtext := c14gitHdr1 + ubuf.String() + c14gitHdr2 + ubuf.String()
+		// the second file of the git patch is a DIFFERENT diff (Right -> Left), so that hunks leaking from one
+		// file's patch into another's (e.g. a reused chunk buffer) cannot go unnoticed
+		d2 := mdiff.New(slices.Clone(r.right), slices.Clone(r.left))
+		if op[1] != "new" {
+			d2.AddContext(atoi(op[1])).Unify()
+		}
+		d2.Format(&ubuf2, mdiff.Unified, gfi)
+		gtext := c14gitHdr1 + ubuf.String() + c14gitHdr2 + ubuf2.String()
+		if len(d2.Chunks) > 0 {
+			r.st.Note("git-two-different-files")
+		}
 		git := "err"
 		if ps, err := mdiff.ReadGitPatch(strings.NewReader(gtext)); err == nil {
 			parts := make([]string, len(ps))
